@@ -379,6 +379,11 @@ def all_obligations():
     A(Ob(name='encode.make_map_e', props=['C01', 'C02', 'C08'], kind='proof', harness='h_collect.c', entry='h_make_map_e', extra_srcs=['src/crctab.c'], defines={'CAP': '3', 'FILL': '0', 'RUNK': '0', 'NIN': '1'},
          what='make_map_e(): for every in-use map the used byte values are numbered 0,1,2.. in ascending order and their count is returned (ghost index over all 256 values)',
          functions=['make_map_e'], flags=['--unwind', '258', '--unwinding-assertions'], expect=['make_map_e: the number advances by one'], replayable=True))
+    A(Ob(name='decode.derandomise', props=['C06', 'C01'], kind='lemma', harness='h_emit.c', entry='h_derandomise', extra_srcs=['src/crctab.c'],
+         what='decode(), derandomisation section (extracted verbatim): over the first 138000 bytes of a block -- past the first wrap-around of the 512-entry table -- exactly the positions '
+              'prescribed by the format are toggled (a constant table walk: everything is concrete)',
+         functions=['decode (derandomisation section)', 'rand_table'], flags=['--unwind', '300', '--unwinding-assertions'], timeout=1200,
+         expect=['derandomisation: every position prescribed'], replayable=True, assumed=['section extraction (6 lines); block stand-in of 138000 entries']))
     # ---------------- encode.c do_mtf(): MTF + zero-run coder against the inverse of the format (C01 O1.3)
     for n, a, tier in ((5, 3, 'quick'), (6, 4, 'thorough'), (7, 3, 'thorough')):
         A(Ob(name=f'encode.do_mtf.n{n}a{a}', props=['C01', 'C02', 'C08'], kind='bounded', tier=tier, harness='h_do_mtf.c', entry='h_do_mtf', extra_srcs=['src/crctab.c'], solver='cadical',
